@@ -66,7 +66,8 @@ def build(cfg):
     if c == "TwoLevel":
         return cs.TwoLevelCheckpointSchedule(p["period"], p["ram"], binomial_storage=st,
                                              binomial_trajectory=traj)
-    costs = dict(uf=p["uf"], ub=p["ub"], wd=p["wd"], rd=p["rd"])
+    sc = p.get("scale", 1)      # costs are integers / scale (scale 10: one decimal place)
+    costs = {k: (p[k] if sc == 1 else p[k] / sc) for k in ("uf", "ub", "wd", "rd")}
     if c == "Revolve":
         return cs.Revolve(p["max_n"], p["ram"], **costs)
     if c == "DiskRevolve":
